@@ -50,6 +50,10 @@ func absServer(server string) []string {
 	switch server {
 	case "http://h.example/base":
 		return []string{"http://h.example"}
+	case "https://p.example:443/base":
+		return []string{"https://p.example:443"} // a port that is spelled out is part of the server
+	case "http://p.example:8080/base":
+		return []string{"http://p.example:8080"}
 	case "{scheme}://h.example/base", "abs:https+http":
 		return []string{"https://h.example", "http://h.example"}
 	case "http://{env}.example/base":
@@ -457,7 +461,7 @@ func check(c Case) (o h.Outcome) {
 
 var tplPool = []string{"/", "/a", "/a/{x}", "/a/b", "/{x}", "/{x}/b", "/a/{x}/b", "/a/{x}/{y}", "/{x}/{y}", "/b/{y}", "/b", "/a/b/c", "/a/{x}/c", "/{x}/b/{y}", "/a/b/{y}", "/a/p-{x}", "/a/p-b", "/a/{x}.json", "/a/b.json", "/a/{x}.{y}", "/{x}-{y}/b", "/a/{w}/d", "/{v}/d/{y}", "/c/{ver}", "/c/{env}/k"} // the last two: a path variable named like a server variable is another variable
 var methodSets = [][]string{{"GET"}, {"POST"}, {"GET", "POST"}, {"GET", "PUT", "DELETE"}, {}}                                                                                                                                                                                                                 // the last one: a path item that declares no operation
-var servers = []string{"none", "/v1", "/", "/V2", "/b%20c", "abs:https+http", "/api/{ver}", "http://h.example/base", "{scheme}://h.example/base", "http://{env}.example/base", "multi:/v1,/v10", "multi:/v10,/v1", "first:/one,/two", "/api/{ver}/{area}", "{whole}"}
+var servers = []string{"none", "/v1", "/", "/V2", "/b%20c", "abs:https+http", "/api/{ver}", "http://h.example/base", "{scheme}://h.example/base", "http://{env}.example/base", "multi:/v1,/v10", "multi:/v10,/v1", "first:/one,/two", "/api/{ver}/{area}", "{whole}", "https://p.example:443/base", "http://p.example:8080/base"}
 var values = []string{"1", "abc", "a.b", "x-y_z~", "b", "a", "Xy9", "B"}
 
 func baseOf(server string) string {
@@ -519,6 +523,12 @@ func requestsFor(c Case) []Case {
 	}
 	if origins[0] != "" {
 		add("GET", base+"/a", "", "http://other.test")
+		if strings.Contains(c.Server, "p.example:") {
+			// another port of the same host is another server
+			add("GET", base+"/a", "", "https://p.example:8443")
+			add("GET", base+"/a", "", "http://p.example:8081")
+			add("GET", base+"/a", "", "https://p.example:8080")
+		}
 		add("GET", base+"/a", "", "ftp://h.example")
 		add("GET", base+"/a", "", "ftp://prod.example")
 	}
